@@ -1,4 +1,5 @@
 import PcfgVerif.Properties.PQRestore
+import PcfgVerif.Generated.CliOptions
 import PcfgVerif.Lemmas.TrainedWF
 import PcfgVerif.Lemmas.SoftFloatLemmas
 import PcfgVerif.Generated.Session
@@ -123,5 +124,13 @@ theorem C08_trained_resume (parseP : CPs → Option Nat) (showP : Nat → CPs) (
     (∀ v ∈ s.popped ++ s.queue, ValidNode g v ∧ sfAlg.le (nodeProb sfAlg.toPOps g v) m = true) ∧
     (s.queue = [] → s.popped.Perm ((allNodes g).filter fun v => sfAlg.le (nodeProb sfAlg.toPOps g v) m)) :=
   C08_resume_binary64 g (trained_grid_wf parseP showP neg1 hround hshow g hcols) m s h
+
+/-- the saved position is filed under the session name as typed: the only assignment to `program_info['session_name']`
+in `pcfg_guesser.py` is `args.session` (regenerated from the source) - two sessions with different names never resume from each
+other's save file -/
+theorem C08_session_name_is_the_typed_name :
+    Generated.CliOptions.guesserAssign.filter (fun a => a.2.1 == "session_name") =
+      [("parse_command_line", "session_name", "args.session")] := by
+  decide
 
 end Pcfg.C08
